@@ -29,6 +29,21 @@ pub struct CL03Commitment {
     pub randomness: Integer,
 }
 
+impl CL03Commitment {
+    /// The public part of the commitment: same value, no opening.
+    pub(crate) fn without_opening(&self) -> Self {
+        Self {
+            value: self.value.clone(),
+            randomness: Integer::new(),
+        }
+    }
+
+    /// True if the commitment does not carry its opening.
+    pub(crate) fn has_no_opening(&self) -> bool {
+        self.randomness == 0
+    }
+}
+
 impl<CS: CLCiphersuite> Commitment<CL03<CS>> {
     pub(crate) fn commit_v(v: &Integer, commitment_pk: &CL03CommitmentPublicKey) -> Self {
         let w = random_bits(CS::ln);
